@@ -30,6 +30,9 @@ class StartRequests(Observer):
         self.lost_since = {}
         self.inst_states = {}
         self.prev_ops = {}
+        self.single_plan_view = {}
+        self.first_known = {}
+        self.single_plan_base = {}
         self.disability_t = {}   # (nick, program) -> t_us of the last accepted enable / disable
         self.stop_judged = set()
         self.distribution_first = {}
@@ -319,6 +322,10 @@ class StartRequests(Observer):
                    'already-running')
         pend = self._pending(s, now)
         dup = [r for r in pend if r['ns'] == ns]
+        # a request whose target S has declared lost since is given up (host lost): asking elsewhere is the repair
+        if dup and all(self.lost_since.get((s.nick, s.incarnation, r['target']), -1) >= r['t_us'] for r in dup):
+            self._probe('request_repeated_after_target_lost')
+            dup = []
         if dup:
             # recorded finding: entering ELECTION / SYNCHRONIZATION aborts the jobs but not the request in flight; a
             # new plan (crash handled while the instance declares itself Master) then asks again
@@ -336,11 +343,19 @@ class StartRequests(Observer):
             for i in idents:
                 if i in states and self._node_of(i) == node:
                     running_load += loads[q]
-        pend_load = sum(loads.get(r['ns'], 0) for r in pend if self._node_of(r['target']) == node)
+        # (a local event is handled - and may trigger this very request - before it is published: a request whose process
+        # already shows as running on its target is counted once, as running)
+        pend_load = sum(loads.get(r['ns'], 0) for r in pend if self._node_of(r['target']) == node
+                        and not (r['ns'] in procs and procs[r['ns']][2] in RUNNING_STATES
+                                 and r['target'] in procs[r['ns']][1]))
         total = running_load + pend_load + loads.get(ns, 0)
         if distribution != 'ALL_INSTANCES':
-            # the whole application was checked against the node at plan time (C14 clause), not request by request
+            # the whole application was checked against the node at plan time, and its commands hold their instance
+            # since: what other plans brought to the node meanwhile is not this plan's (known concurrent-applications
+            # mechanism). Judged on what was already running there when the plan made its first request and still is,
+            # plus the application's own running and requested processes
             total = 0
+            self._check_single_plan_load(s, ns, app, identifier, states, procs, loads, pend, detail, distribution)
         if total > 100:
             # specific history of the recorded finding: ApplicationStartJobs only accounts for the requests of its own
             # application, so applications started concurrently by one instance ignore each other's requested loads
@@ -365,6 +380,37 @@ class StartRequests(Observer):
                               rule_ids, detail)
         self.requests.append({'s': s.nick, 'inc': s.incarnation, 'ns': ns, 'target': identifier, 't_us': now,
                               'app': app, 'mono': s.node['mono'] + now / US})
+
+    def _single_plan(self, s, app):
+        """ (key, overlap) of the current plan of S for a non-distributed application. """
+        t_dist = self.distribution_entry.get((s.nick, s.incarnation), -1)
+        op = self.ops.get((s.nick, app))
+        plan_t0 = max(t_dist, op[0] if op else -1, self.stops.get((s.nick, s.incarnation, app), -1),
+                      self.handler_plans.get((s.nick, s.incarnation, app), -1))
+        overlap = plan_t0 >= 0 and any(r['s'] == s.nick and r['inc'] == s.incarnation and r['app'] == app
+                                       and plan_t0 - 60 * US < r['t_us'] < plan_t0 for r in self.requests)
+        return (s.nick, s.incarnation, app, plan_t0), overlap
+
+    def _check_single_plan_load(self, s, ns, app, target, states, procs, loads, pend, detail, distribution):
+        key, overlap = self._single_plan(s, app)
+        node = self._node_of(target)
+        on_node = {(q, i) for q, (_st, idents, real) in procs.items() if real in RUNNING_STATES
+                   for i in idents if i in states and self._node_of(i) == node}
+        base = self.single_plan_base.get(key)
+        if base is None:
+            base = self.single_plan_base[key] = (node, on_node, self.sim.now_us)
+        if overlap or base[0] != node or self.sim.now_us - base[2] > 300 * US:
+            return
+        counted = {(q, i) for (q, i) in on_node if (q, i) in base[1] or q.split(':')[0] == app}
+        running_load = sum(loads[q] for q, _i in counted)
+        pend_load = sum(loads.get(r['ns'], 0) for r in pend if r.get('app') == app and self._node_of(r['target']) == node)
+        total = running_load + pend_load + loads.get(ns, 0)
+        self._probe('single_plan_load_checked')
+        if total > 100:
+            self.v('C04', 'node-overload', dict(detail, node=node, distribution=distribution, load=loads.get(ns, 0),
+                                                counted={'%s@%s' % k: loads[k[0]] for k in sorted(counted)},
+                                                own_pending=pend_load),
+                   'node-overload:non-distributed-plan')
 
     # --- C03 ------------------------------------------------------------------------------------
     def _truly_running(self, ns):
@@ -438,6 +484,12 @@ class StartRequests(Observer):
                     self.lost_since[(inst.nick, inst.incarnation, ident)] = sim.now_us
                     self._note_host_lost(sim, inst, ident)
                 prev[ident] = name
+        # when each process became known to the instance (a plan only holds what was known when it was built)
+        for app in inst.supvisors.context.applications.values():
+            for pname in app.processes:
+                k = (inst.nick, inst.incarnation, '%s:%s' % (app.application_name, pname))
+                if k not in self.first_known:
+                    self.first_known[k] = sim.now_us
 
     def _check_sequence(self, sim, s, ns, app, procs, seqs, required, prules, arules, detail):
         if not self.app_plans_only:
@@ -447,11 +499,27 @@ class StartRequests(Observer):
         if seq == 0:
             self.v('C03', 'unsequenced-process-started', dict(detail, start_sequence=0), 'unsequenced-process-started')
         lower = [q for q in procs if q.split(':')[0] == app and q != ns and 0 < seqs.get(q, 0) < seq]
+        # a program that S only learnt after the plan began (brought by an instance admitted meanwhile) is not the plan's
+        t_plan = max(self.distribution_first.get((s.nick, s.incarnation), -1), self.ops.get((s.nick, app), (-1,))[0])
+        if t_plan >= 0:
+            late = [q for q in lower if self.first_known.get((s.nick, s.incarnation, q), -1) > t_plan]
+            if late:
+                self._probe('lower_sequence_unknown_at_plan_time')
+                lower = [q for q in lower if q not in late]
         not_done = [q for q in lower if not self._done(q, procs, s)]
         if not_done:
+            sig = 'lower-sequence-not-done:%s' % procs[not_done[0]][2]
+            if procs[not_done[0]][2] in STOPPED_STATES and t_plan >= 0:
+                # recorded mechanism (see lower-sequence-not-done:STOPPING): a process that was STOPPING in S's view when the
+                # plan was built is left out of it, and is not waited for; it has come to rest since
+                last = None
+                for t, state, _e in self.history.get((s.nick, s.incarnation, not_done[0]), ()):
+                    if t <= t_plan:
+                        last = state
+                if last == 40:
+                    sig += ':stopping-when-the-plan-was-built'
             self.v('C03', 'lower-sequence-not-done', dict(detail, start_sequence=seq,
-                                                          pending={q: (seqs[q], procs[q][2]) for q in not_done}),
-                   'lower-sequence-not-done:%s' % procs[not_done[0]][2])
+                                                          pending={q: (seqs[q], procs[q][2]) for q in not_done}), sig)
         # application level, for automatic plans only (DISTRIBUTION / restart_sequence)
         t_dist = self.distribution_entry.get((s.nick, s.incarnation))
         t_op = self.ops.get((s.nick, app), (-1,))[0]
@@ -543,6 +611,11 @@ class StartRequests(Observer):
                    for t, item, fired in self.run.applied):
                 self._probe('stop_strategy_disturbed_skipped')
                 continue
+            # same for a loss that is not an injected fault: the requester declared an instance lost (slow network, live
+            # peer declared FAILED) around the failure: what runs there is out of its sight and reach
+            if any(k[0] == nick and k[1] == inc and v > t_ab - 30 * US for k, v in self.lost_since.items()):
+                self._probe('stop_strategy_disturbed_by_loss_skipped')
+                continue
             running = sorted(ns for i in sim.instances.values() if i.alive and i.sd is not None
                              for ns, st in truth(i).items() if ns.split(':')[0] == app and st == 'RUNNING')
             self._probe('stop_strategy_judged')
@@ -590,6 +663,12 @@ class StartRequests(Observer):
         # belongs to the oldest unresolved request, and is dated at that request
         failed_request = mine[0]
         failed_request['resolved'] = True
+        # the request had already ended (started, or failed on a stop-like event) before this FATAL: the failure belongs
+        # to a later start by somebody else
+        if any(failed_request['t_us'] < t < sim.now_us - 1000 and state in (0, 20, 40, 100, 1000)
+               for t, state, _e in self.history.get((inst.nick, inst.incarnation, ns), ())):
+            self._probe('fatal_after_request_had_ended')
+            return
         ctx = inst.supvisors.context
         app = ctx.applications.get(ns.split(':')[0])
         if app is None:
@@ -678,6 +757,8 @@ class StartRequests(Observer):
                     self.v('C14', 'single-node-split', dict(detail, previous=p_target), 'single-node-split')
             prev.append((target, now))
             self._probe('distribution_rule_checked')
+            if distribution == 'SINGLE_NODE':
+                self._check_config_in_node(s, ns, app, target, states, arules, rule_ids, detail, key, t_dist)
             return
         # strategy optimality, judged when the loads are unambiguous: the outstanding requests of S are either certainly
         # counted as requested load (sent < 5 s ago, no event since, process still stopped in S's view) or absent
@@ -696,33 +777,8 @@ class StartRequests(Observer):
             return
         if certain:
             self._probe('placement_with_pending')
-        t_stop = self.stops.get((s.nick, s.incarnation, app), -1)
-        t_handler = self.handler_plans.get((s.nick, s.incarnation, app), -1)
-        prev_op = self.prev_ops.get((s.nick, app))
-        if op and prev_op and op[0] - prev_op[0] < 60 * US:
-            # two accepted operations on the application within one plan duration: the second one is merged into (or
-            # ignored by) the job of the first, whose strategy goes on
-            self._probe('placement_attribution_ambiguous')
-            return
-        if op and t_handler >= op[0]:
-            op = None   # the plan comes from the failure handler: strategy of the rules
-        if op and op[0] > t_dist:
-            # stop requests of S for this application after the operation: either the stop phase of this very
-            # restart_application, or a later restart by the failure handler (which uses the rules strategy): ambiguous
-            if t_stop > op[0] and not (op[1] == 'restart_application' and t_stop - op[0] < 60 * US):
-                self._probe('placement_attribution_ambiguous')
-                return
-            strategy = op[2][0]
-        elif t_dist >= 0 or True:
-            strategy = arules.get('starting_strategy') if arules.get('managed') else None
+        strategy = self._plan_strategy(s, app, arules, t_dist)
         if strategy is None:
-            return
-        names = ['CONFIG', 'LESS_LOADED', 'MOST_LOADED', 'LOCAL', 'LESS_LOADED_NODE', 'MOST_LOADED_NODE']
-        if isinstance(strategy, int):
-            if not 0 <= strategy < len(names):
-                return
-            strategy = names[strategy]
-        if strategy not in names:
             return
         if not self.strategy_known:
             return
@@ -779,3 +835,66 @@ class StartRequests(Observer):
             self.v('C14', clause, d, clause)
 
     strategy_known = True
+
+    NAMES = ['CONFIG', 'LESS_LOADED', 'MOST_LOADED', 'LOCAL', 'LESS_LOADED_NODE', 'MOST_LOADED_NODE']
+
+    def _plan_strategy(self, s, app, arules, t_dist):
+        """ Name of the starting strategy of the plan behind a request of S for the application: the one of the accepted
+        operation, or the one of the rules (DISTRIBUTION, failure handler); None when the attribution is ambiguous. """
+        op = self.ops.get((s.nick, app))
+        t_stop = self.stops.get((s.nick, s.incarnation, app), -1)
+        t_handler = self.handler_plans.get((s.nick, s.incarnation, app), -1)
+        prev_op = self.prev_ops.get((s.nick, app))
+        if op and prev_op and op[0] - prev_op[0] < 60 * US:
+            # two accepted operations on the application within one plan duration: the second one is merged into (or
+            # ignored by) the job of the first, whose strategy goes on
+            self._probe('placement_attribution_ambiguous')
+            return None
+        if op and t_handler >= op[0]:
+            op = None   # the plan comes from the failure handler: strategy of the rules
+        if op and op[0] > t_dist:
+            # stop requests of S for this application after the operation: either the stop phase of this very
+            # restart_application, or a later restart by the failure handler (which uses the rules strategy): ambiguous
+            if t_stop > op[0] and not (op[1] == 'restart_application' and t_stop - op[0] < 60 * US):
+                self._probe('placement_attribution_ambiguous')
+                return None
+            strategy = op[2][0]
+        else:
+            strategy = arules.get('starting_strategy') if arules.get('managed') else None
+        if strategy is None:
+            return None
+        if isinstance(strategy, int):
+            if not 0 <= strategy < len(self.NAMES):
+                return None
+            strategy = self.NAMES[strategy]
+        if strategy not in self.NAMES:
+            return None
+        return strategy
+
+    def _check_config_in_node(self, s, ns, app, target, states, arules, rule_ids, detail, key, t_dist):
+        """ SINGLE_NODE + CONFIG: inside the chosen node, a process goes to the first instance, in the declared order of
+        the application, that is RUNNING and has the program enabled. The instances of the node are fixed when the plan is
+        made (first request): a better instance must have been RUNNING then, and ever since. """
+        mates_running = self.single_plan_view.get(key)
+        first = mates_running is None
+        node = self._node_of(target)
+        order = list(states) if '*' in rule_ids else s.supvisors.mapper.filter(list(rule_ids))
+        mates = [i for i in order if self._node_of(i) == node]
+        if first:
+            mates_running = self.single_plan_view[key] = ({i for i in mates if states.get(i) == 'RUNNING'}, self.sim.now_us)
+        if self._plan_strategy(s, app, arules, t_dist) != 'CONFIG' or not self.strategy_known or target not in mates:
+            return
+        running_at_plan, t_plan = mates_running
+        proc = s.supvisors.context.applications[app].processes[ns.split(':')[1]]
+        better = []
+        for i in mates[:mates.index(target)]:
+            info = proc.info_map.get(i)
+            if i in running_at_plan and states.get(i) == 'RUNNING' and info is not None and not info.get('disabled') \
+                    and self.lost_since.get((s.nick, s.incarnation, i), -1) < t_plan:
+                better.append(i)
+        self._probe('config_order_in_node_checked')
+        if len(mates) > 1:
+            self._probe('config_order_in_node_checked_several_instances')
+        if better:
+            self.v('C14', 'config-order', dict(detail, strategy='CONFIG', node=node, declared_order=mates, better=better),
+                   'config-order:inside-the-single-node')
